@@ -40,7 +40,8 @@ def as_rep(X, container, dtype="f64"):
     raise KeyError(container)
 
 
-def run_solver(name, X, y, dfd, pend, fit_intercept=False, tol=1e-8, w_init=None, init_datafit=True, **kw):
+def run_solver(name, X, y, dfd, pend, fit_intercept=False, tol=1e-8, w_init=None, init_datafit=True,
+               Xw_init=None, **kw):
     """-> dict(w, crit, n_iter, exc). X may be any container."""
     from . import skl
     df = None if dfd is None else skl.datafit(dfd)
@@ -59,7 +60,7 @@ def run_solver(name, X, y, dfd, pend, fit_intercept=False, tol=1e-8, w_init=None
                     df.initialize_sparse(X.data, X.indptr, X.indices, y)
                 elif not sparse.issparse(X):
                     df.initialize(np.asarray(X), y)
-            res = slv.solve(X, y, df, pen, w_init)
+            res = slv.solve(X, y, df, pen, w_init, Xw_init)
         out.update(w=np.array(res[0], dtype=float), crit=float(np.max(res[2])), n_iter=len(res[1]))
     except BaseException as e:  # noqa: BLE001
         if isinstance(e, (KeyboardInterrupt, SystemExit)):
